@@ -1,0 +1,31 @@
+//go:build verif
+
+package writecache
+
+import (
+	oid "github.com/nspcc-dev/neofs-sdk-go/object/id"
+)
+
+// VerifState is a read-only projection of the write-cache bookkeeping used by
+// the external model-based verification harness (build tag verif only).
+type VerifState struct {
+	// Size is the used size the cache reports (the value put admission checks).
+	Size uint64
+	// Sizes is a copy of the address -> size map.
+	Sizes map[oid.Address]uint64
+	// InFlight lists addresses currently marked as being flushed.
+	InFlight []oid.Address
+	// ErrPending tells whether a flush error is queued for the scheduler.
+	ErrPending bool
+}
+
+// VerifStateOf returns bookkeeping state of c. It panics if c was not made by [New].
+func VerifStateOf(c Cache) VerifState {
+	cc := c.(*cache)
+	st := VerifState{Size: cc.objCounters.Size(), Sizes: cc.objCounters.Map(), ErrPending: len(cc.flushErrCh) > 0}
+	cc.flushObjs.Range(func(k, _ any) bool {
+		st.InFlight = append(st.InFlight, k.(oid.Address))
+		return true
+	})
+	return st
+}
